@@ -352,5 +352,5 @@ class ExactGP(GP):
                 ) = self.prediction_strategy.exact_prediction(full_mean, full_covar)
 
             # Reshape predictive mean to match the appropriate event shape
-            predictive_mean = predictive_mean.view(*batch_shape, *test_shape).contiguous()
+            predictive_mean = predictive_mean.view(*predictive_mean.shape[:-1], *test_shape).contiguous()
             return full_output.__class__(predictive_mean, predictive_covar)
